@@ -56,6 +56,8 @@ pub(crate) trait ErasedObserver: Debug + NotObserver {
     fn remove_from_observed_node(&self);
     fn unsubscribe(&self, token: SubscriptionToken) -> Result<(), ObserverError>;
     fn run_all(&self, input: &Node, node_update: NodeUpdateDelayed, now: StabilisationNum);
+    #[cfg(cormacrelf_incremental_rs_verif)]
+    fn verif_dump(&self) -> String;
 }
 
 impl<T: Value> ErasedObserver for InternalObserver<T> {
@@ -152,6 +154,41 @@ impl<T: Value> ErasedObserver for InternalObserver<T> {
                 InUse => handler.run(input, node_update, now),
             }
         }
+    }
+
+    #[cfg(cormacrelf_incremental_rs_verif)]
+    fn verif_dump(&self) -> String {
+        let mut subs: Vec<_> = match self.on_update_handlers.try_borrow() {
+            Ok(handlers) => handlers
+                .iter()
+                .map(|(tok, h)| (tok.1, h.verif_dump()))
+                .collect(),
+            Err(_) => vec![(-1, "?borrowed".to_string())],
+        };
+        subs.sort();
+        let subs: Vec<String> = subs.into_iter().map(|(t, h)| format!("{t}:{h}")).collect();
+        format!(
+            "o{} st={:?} next={} subs=({})",
+            self.id.0,
+            self.state.get(),
+            self.next_subscriber.get().1,
+            subs.join("|")
+        )
+    }
+}
+
+#[cfg(cormacrelf_incremental_rs_verif)]
+impl ObserverId {
+    pub(crate) fn verif_usize(&self) -> usize {
+        self.0
+    }
+}
+
+#[cfg(cormacrelf_incremental_rs_verif)]
+impl SubscriptionToken {
+    /// Verification-only: the per-observer sequence number of this token.
+    pub fn verif_seq(&self) -> i32 {
+        self.1
     }
 }
 
